@@ -819,6 +819,14 @@ class Interp:
             u = T.uf(f"h_{name}_uninit!{o}", *(["int"] * len(buf.shape) + ["bool"]))
             buf.uninit = lambda idx, u=u: u(*[T.zi(i) for i in idx])
 
+    def _inv(self, spec, env, k):
+        """evaluate a loop contract's invariant on the specification side (its index side conditions are not code obligations)"""
+        self.cx.spec_side += 1
+        try:
+            return spec.inv(self, env, k)
+        finally:
+            self.cx.spec_side -= 1
+
     def run_invariant_loop(self, st, env, key, spec, n=None, item_at=None, while_test=None):
         """Hoare rule for a loop with contract `spec`.
         for-loops: counter k runs over [0, n); item k is item_at(k).
@@ -829,7 +837,7 @@ class Interp:
         is_for = while_test is None
         zero = 0
         # 1. invariant holds on entry
-        for ent in spec.inv(self, env, zero):
+        for ent in self._inv(spec, env, zero):
             lab, f = ent[0], ent[1]
             if len(ent) > 2 and ent[2] is not None:
                 cx.oblige_from(f"{q.split('.')[-1]}::inv.init.{tag}.{lab}", f, ent[2], "inv")
@@ -864,11 +872,11 @@ class Interp:
             # 2. arbitrary iteration: assume inv + guard, run body, show inv again
             if is_for:
                 cx.assume(T.land(T.ge(k.t, 0), T.lt(k.t, n)), "loop counter in range")
-                for ent in spec.inv(self, env, k.t):
+                for ent in self._inv(spec, env, k.t):
                     cx.assume(ent[1], f"inv.{ent[0]}")
                 self.assign(st.target, item_at(k.t), env)
             else:
-                for ent in spec.inv(self, env, None):
+                for ent in self._inv(spec, env, None):
                     cx.assume(ent[1], f"inv.{ent[0]}")
                 c = self.eval(while_test, env)
                 if not self.truth(c, "while guard"):
@@ -885,7 +893,7 @@ class Interp:
                         cx.oblige(f"{q.split('.')[-1]}::inv.break.{tag}.{lab}", f, "inv")
                 return
             nxt = T.add(k.t, 1) if is_for else None
-            for ent in spec.inv(self, env, nxt):
+            for ent in self._inv(spec, env, nxt):
                 lab, f = ent[0], ent[1]
                 if len(ent) > 2 and ent[2] is not None:
                     # the contract names the hypotheses this step follows from (keeps non-linear queries small)
@@ -901,10 +909,10 @@ class Interp:
             if is_for:
                 nn = n
                 cx.assume(T.ge(nn, 0))
-                for ent in spec.inv(self, env, nn):
+                for ent in self._inv(spec, env, nn):
                     cx.assume(ent[1], f"inv.{ent[0]}@exit")
             else:
-                for ent in spec.inv(self, env, None):
+                for ent in self._inv(spec, env, None):
                     cx.assume(ent[1], f"inv.{ent[0]}@exit")
                 c = self.eval(while_test, env)
                 if self.truth(c, "while guard at exit"):
